@@ -653,7 +653,7 @@ class CSSStyleSheet(cssutils.stylesheets.StyleSheet):
 
         elif isinstance(rule, cssutils.css.CSSRuleList):
             # insert all rules
-            for i, r in enumerate(rule):
+            for i, r in enumerate(list(rule)):
                 self.insertRule(r, index + i)
             return index
 
